@@ -25,6 +25,7 @@ partial def valJson : Val → Json
   | .none => Json.arr #["n"]
   | .fill => Json.arr #["fill"]
   | .tup vs => Json.arr (#[Json.str "t"] ++ (vs.map valJson).toArray)
+  | .lst vs => Json.arr (#[Json.str "l"] ++ (vs.map valJson).toArray)
 
 def parseResp (j : Json) : Except String Resp := do
   let a ← j.getArr?
